@@ -50,7 +50,7 @@ def run(r):
                 dn = dict(t[3]).get("dropna")
                 if rooted and not filled and not (dn is not None and is_const(strip(dn), False)):
                     rep.ob("C02-NA", q, False, "rows with a missing cell take part in the count like any other row", where_of(r.P, s_cur.func, e.node),
-                           expected="row-wise serialisation after fillna, or value_counts / groupby with dropna=False", found=show(t, 120), key=f"{f[2]} drops rows with missing cells")
+                           expected="row-wise serialisation after fillna, or value_counts / groupby with dropna=False", found=show(t, 120), key=f"{f[2]} drops rows with missing cells", lint=True)
 
     check_against_spec(r, "C02-RF", "pc_n", "pc_n(n) == sum n_i(n_i - 1) / (N (N - 1))", vec=vec_with_param0)
     check_against_spec(r, "C02-RF", "pc", "pc one-sample == coinciding ordered pairs / N(N-1); two-sample == coinciding cross pairs / (N1 N2); tables serialised row-wise", vec=is_vec)
